@@ -11,8 +11,8 @@ META = {
     "explanation": "bounded symbolic execution of iter_errors followed by ErrorTree(errors) where the order of arrival is a symbolic "
                    "permutation (Lehmer code) of the error list; the tree is then walked along every error's path and compared with "
                    "what the error list itself implies (children, membership, totals, empty subtrees)",
-    "bounds": {"instances": "objects/arrays <= 2 entries (3 for flat arrays), keys <= 1-2 code points", "errors": "<= 5 per collection",
-               "permutation": "every order of arrival of up to 4 errors; the first 3 positions of 5"},
+    "bounds": {"instances": "objects/arrays <= 2 entries (3 for flat arrays); object keys from the catalogue ('', a, b, c, ab, ca) because ErrorTree hashes path elements natively; integer values unbounded", "errors": "<= 5 per collection",
+               "permutation": "orders of arrival as concrete Lehmer codes over the first three positions: all 24 in the thorough tier, identity, reverse and two seeded ones in quick"},
     "outside": ["trees on which error-free elements were looked up before (documented quirk)", "deeper paths than 2"],
     "stubs": ["message formatting"],
     "assumptions": ["CrossHair's models of dict/defaultdict/deque on symbolic keys"],
@@ -151,37 +151,55 @@ def contains_path(lst, p):
 from vf.harness import KIND_TYPES  # noqa: E402
 
 
-def tree(name, L=1, N=2, perm=3, exclude=()):
+def tree(name, L=1, N=2, code=(0, 0, 0), exclude=()):
+    """`code` (concrete Lehmer code, cube-and-conquer on the order of arrival) permutes the error list"""
     draft, kind, mk = SCHEMAS[name]
 
-    def pre(x, m, n, p0, p1, p2):
+    def pre(x, m, n):
         if not small(x, L, N, 2):
             return False
-        return 0 <= p0 < 5 and 0 <= p1 < 4 and 0 <= p2 < 3 and (perm >= 3 or p2 == 0) and (perm >= 2 or p1 == 0) and (perm >= 1 or p0 == 0)
+        if isinstance(x, dict):
+            # ErrorTree files children in a native dict keyed by path elements: a symbolic key would be hashed
+            # natively (DESIGN 2.1), so object keys range over a concrete catalogue here
+            for k in x:
+                if k not in KEYS:
+                    return False
+        return True
 
-    def body(x, m, n, p0, p1, p2):
+    def body(x, m, n):
         v = tp.CLS[draft](mk(m, n))
         errs = call(lambda: list(v.iter_errors(x)))
         if len(errs) > 5:
             return True, "too-many"
-        errs = permute(errs, [p0, p1, p2])
+        errs = permute(errs, list(code))
         ok = tree_ok(x, errs, exclude)
         return ok, ("errors%d" % min(len(errs), 2))
 
-    return Spec([("x", KIND_TYPES[kind]), ("m", int), ("n", int), ("p0", int), ("p1", int), ("p2", int)], pre, body,
-                tags=["errors0", "errors2"] if name not in ("d3_required", "d3_required_order2", "required_many") else ["errors2"])
+    return Spec([("x", KIND_TYPES[kind]), ("m", int), ("n", int)], pre, body, tags=TAGS.get(name, ["errors0", "errors2"]))
+
+
+KEYS = ("", "a", "b", "c", "ab", "ca")
+TAGS = {"d3_required": ["errors2"], "d3_required_order2": ["errors2"], "required_many": ["errors2"]}
 
 
 def conditions(tier, seed, active):
+    import itertools
+    import random
     out = []
     quick = tier == "quick"
+    rng = random.Random(seed)
+    codes = list(itertools.product(range(4), range(3), range(2)))
     for name, (d, kind, _) in SCHEMAS.items():
-        tags = ["errors0", "errors2"] if name not in ("d3_required", "d3_required_order2", "required_many") else ["errors2"]
-        variants = [dict(L=1, N=2, perm=2)] if quick else [dict(L=1, N=2, perm=3), dict(L=2, N=2, perm=1)]
-        if kind == "arr_int" and not quick:
-            variants.append(dict(L=1, N=3, perm=2))
-        for v in variants:
-            cid = "%s/L%d,N%d,perm%d" % (name, v["L"], v["N"], v["perm"])
-            out.append(dict(id=cid, module=__name__, factory="tree", params=dict(name=name, exclude=list(active), **v), timeout=900 if quick else 3000,
-                            tags=tags, witness=tags))
+        tags = TAGS.get(name, ["errors0", "errors2"])
+        if quick:
+            chosen = [(0, 0, 0), (3, 2, 1)] + rng.sample(codes[1:-1], 2)
+            variants = [dict(L=1, N=2, code=list(c)) for c in chosen]
+        else:
+            variants = [dict(L=1, N=2, code=list(c)) for c in codes] + [dict(L=2, N=2, code=[0, 0, 0]), dict(L=2, N=2, code=[3, 2, 1])]
+            if kind == "arr_int":
+                variants += [dict(L=1, N=3, code=list(c)) for c in ((0, 0, 0), (3, 2, 1), (1, 1, 1), (2, 0, 1))]
+        for i, v in enumerate(variants):
+            cid = "%s/L%d,N%d,order%s" % (name, v["L"], v["N"], "".join(map(str, v["code"])))
+            out.append(dict(id=cid, module=__name__, factory="tree", params=dict(name=name, exclude=list(active), **v),
+                            timeout=600 if quick else 2400, tags=tags, witness=tags if i == 0 else []))
     return out
